@@ -8,7 +8,7 @@ Import ListNotations.
 Local Open Scope list_scope.
 
 (* ------------------------------------------------------------------ generic: the two sorts *)
-(* Python's sorted() (insertion from the left) is the model's sort_by on the reversed list *)
+(* Python's sorted() (stable insertion from the left) is the model's sort_by *)
 Lemma py_insert_lt_insert {A K} (key : A -> K) (ltb : K -> K -> bool) (ltA : A -> A -> bool) :
   (forall x y, ltA x y = ltb (key x) (key y)) ->
   forall x l, py_insert_lt ltA x l = insert key ltb x l.
@@ -17,14 +17,13 @@ Proof.
   rewrite Hlt, IH. reflexivity.
 Qed.
 
-Lemma py_sorted_lt_rev {A K} (key : A -> K) (ltb : K -> K -> bool) (ltA : A -> A -> bool) :
+Lemma py_sorted_lt_sort_by {A K} (key : A -> K) (ltb : K -> K -> bool) (ltA : A -> A -> bool) :
   (forall x y, ltA x y = ltb (key x) (key y)) ->
-  forall l, py_sorted_lt ltA l = sort_by key ltb (rev l).
+  forall l, py_sorted_lt ltA l = sort_by key ltb l.
 Proof.
-  intros Hlt l. unfold py_sorted_lt, sort_by.
-  rewrite <- fold_left_rev_right.
-  induction (rev l) as [|x xs IH]; cbn [fold_right]; [reflexivity|].
-  rewrite IH. apply py_insert_lt_insert. exact Hlt.
+  intros Hlt l. unfold py_sorted_lt, sort_by. generalize (@nil A) as acc.
+  induction l as [|x xs IH]; intros acc; cbn [fold_left]; [reflexivity|].
+  rewrite (py_insert_lt_insert key ltb ltA Hlt). apply IH.
 Qed.
 
 (* both sorts give the sorted sequence of the keys *)
@@ -33,11 +32,8 @@ Lemma py_sorted_lt_keys {A K} (key : A -> K) (ltb : K -> K -> bool) (ltA : A -> 
   (forall x y, ltA x y = ltb (key x) (key y)) ->
   forall l, map key (py_sorted_lt ltA l) = sort_by idk ltb (map key l).
 Proof.
-  intros (I & T & Tot) Hlt l.
-  rewrite (py_sorted_lt_rev key ltb ltA Hlt).
-  rewrite <- map_key_sort.
-  apply sort_by_keys_canonical; [exact I | exact T | exact Tot |].
-  apply Permutation_map, Permutation_sym, Permutation_rev.
+  intros _ Hlt l.
+  rewrite (py_sorted_lt_sort_by key ltb ltA Hlt). apply map_key_sort.
 Qed.
 
 Lemma py_sorted_lt_keys_model {A K} (key : A -> K) (ltb : K -> K -> bool) (ltA : A -> A -> bool) :
